@@ -268,9 +268,52 @@ RULE = ("random season lists (1-4 seasons, gaps/overlaps, shuffled order, missin
         "non-trivial = distinct case in which both truth values occur")
 
 
+def consumers(rep, tier, sd):
+    """the strategies' own uses of the predicates (implementation-level): Schedule.dt_to_end_of_time_window must be the first
+    whole-minute offset at which the core-standing-time predicate (tied to the model above) is false"""
+    import random
+    C.setup_repo_path()
+    from spice_ev import scenario, strategy, util
+    rng = random.Random("c15/consumers/%d" % sd)
+    n = 0
+    minute = datetime.timedelta(minutes=1)
+    for _ in range(6 if tier == "quick" else 60):
+        interval = rng.choice([15, 15, 10, 60])
+        start = datetime.datetime(2020, 1, rng.randint(1, 20), rng.choice([0, 6, 22]), 0, tzinfo=datetime.timezone(datetime.timedelta(hours=1)))
+        js = {"scenario": {"start_time": start.isoformat(), "interval": interval, "n_intervals": 8},
+              "components": {"vehicle_types": {}, "vehicles": {}, "charging_stations": {},
+                             "grid_connectors": {"GC": {"max_power": 50, "cost": {"type": "fixed", "value": 0.3}}}},
+              "events": {"grid_operator_signals": [], "fixed_load": {}, "vehicle_events": []}}
+        cst = {"times": [{"start": [rng.randrange(24), rng.choice([0, 30, 45])], "end": [rng.randrange(24), rng.choice([0, 10, 20, 50, 7])]}
+                         for _ in range(rng.choice([1, 1, 2]))],
+               "no_drive_days": rng.sample(range(7), rng.choice([0, 1, 2]))}
+        if rng.random() < 0.4:
+            cst["holidays"] = [(start + datetime.timedelta(days=rng.randrange(0, 4))).date().isoformat()]
+        s = scenario.Scenario(js)
+        strat = strategy.class_from_str("schedule")(s.components, s.start_time, interval=s.interval, events=s.events,
+                                                    core_standing_time=cst, LOAD_STRAT="collective")
+        for step in rng.sample(range(96 * 3 * 15 // interval), 25):
+            now = s.start_time + step * s.interval
+            strat.current_time = now
+            m = 0
+            while util.dt_within_core_standing_time(now + m * minute, cst) and m < 20000:
+                m += 1
+            if m >= 20000:
+                continue            # the configured times cover everything: the implementation's scan would not end (C17's business)
+            got = strat.dt_to_end_of_time_window()
+            n += 1
+            if got != m * minute:
+                rep.add_violation("C15/schedule-end-of-window",
+                                  "Schedule.dt_to_end_of_time_window at %s (interval %d min) = %s, first minute outside the core standing time is +%d min; %r"
+                                  % (now.isoformat(), interval, got, m, cst), {"unit": "consumers", "case": {"cst": cst, "now": now.isoformat(), "interval": interval}})
+                break
+    rep.cov["evaluations"] += n
+    rep.notes["consumer_calls"] = n
+
+
 def run(tier):
     UNIT.minutes_cases = 1 if tier == "quick" else 30
-    return corr.standard_run("C15", tier, [UNIT], 500, 5000, TRUSTED, RULE)
+    return corr.standard_run("C15", tier, [UNIT], 500, 5000, TRUSTED, RULE, extra=consumers)
 
 
 def replay(payload):
